@@ -29,6 +29,7 @@ Syntax only; the meaning of a site (`guards ⇒ index < size`) and the proofs ar
 expression kind not listed here makes the translator refuse.
 """
 import concurrent.futures as cf
+import functools
 import hashlib
 import json
 import os
@@ -306,8 +307,11 @@ def ge_text(g):
     return "true"
 
 
+@functools.lru_cache(maxsize=None)
 def mentions(token, text):
     """does the name `token` depend on the object named `text`?"""
+    if text not in token:
+        return False
     return re.search(r"(?<![\w.>])" + re.escape(text) + (r"(?![\w])" if re.search(r"\w$", text) else ""), token) is not None
 
 
@@ -347,6 +351,10 @@ class Walker:
         self.post = []             # guards that hold once the statement being visited is complete
         self.fallthrough = None    # of the last `if`: what is modified on the paths that reach the next statement
         self.tail = ()
+        self.summaries = {}        # def -> templates of what a call may modify (in terms of ⟨this⟩ / ⟨p:name⟩)
+        self.summ_busy = set()
+        self.summary_mode = 0
+        self.reached = set()       # definitions walked from an entry point
         self.nframes = 0
         self.entry = ""
         self.external = {}
@@ -446,7 +454,7 @@ class Walker:
     def on_stack(self, d, limit=2):
         """is `d` already being inlined `limit` times?  (one repetition is inlined: a cycle whose second turn is
         provably unreachable – `const_iterator()` with its default null stream – is not a recursion)"""
-        return sum(1 for f in self.stack if f.d is d and f.fid >= 0) >= limit
+        return sum(1 for f in self.stack if f.d is d and f.fid >= 0 and f.this_text != "⟨this⟩") >= limit
 
     def bind(self, d, obj, args, arrow, fresh=False):
         """frame of a call of `d`: reference / pointer-free parameters are the argument's text"""
@@ -919,10 +927,65 @@ class Walker:
             out.append(cur.strip())
         return out
 
+    def summary(self, d):
+        """what a call of `d` may modify, as templates over ⟨this⟩ and ⟨p:name⟩ (reference / pointer parameters):
+        the body is walked once, on its own, with the calls it makes replaced by their summaries"""
+        if id(d) in self.summaries:
+            return self.summaries[id(d)]
+        refs = [p.get("name") for p in d.params if p.get("name") and (tdes(p).strip().endswith("&") or is_ptr(tdes(p)))]
+        if id(d) in self.summ_busy:             # a cycle: assume the object and every reference argument
+            return ([] if d.is_const else ["⟨this⟩"]) + ["⟨p:%s⟩" % r for r in refs]
+        self.summ_busy.add(id(d))
+        saved = (self.stack, self.emit, self.nframes, self.post, self.fallthrough, self.tail)
+        self.nframes += 1
+        fid = self.nframes
+        fr = Frame(fid, d, "⟨this⟩", {r: "⟨p:%s⟩" % r for r in refs})
+        self.stack = saved[0] + [fr]            # keeps `local()` of lambdas working; `on_stack` ignores it below
+        self.emit = False
+        self.summary_mode += 1
+        self.post = []
+        try:
+            killed = set()
+            for ini in d.inits:
+                for c in kids(ini):
+                    killed |= self.V(c, ())
+                mem = ini.get("anyInit", {})
+                if mem.get("name"):
+                    killed.add("⟨this⟩." + mem["name"])
+            if d.body is not None:
+                kk, _ = self.S(d.body, ())
+                killed |= kk
+        finally:
+            self.summary_mode -= 1
+            self.stack, self.emit, self.nframes, self.post, self.fallthrough, self.tail = saved
+            self.summ_busy.discard(id(d))
+        out = sorted(t for t in killed if ("⟨this⟩" in t or "⟨p:" in t) and not re.search(r"'%d\b" % fid, t))
+        self.summaries[id(d)] = out
+        return out
+
     def inline(self, d, obj, args, ctx, arrow=False, this_text=None, call_node=None):
         """walk the body of `d` in the caller's context; returns the modified texts (caller's names)"""
         caller = self.F().d.sig() if self.stack else "<entry>"
         self.edges.add((caller, d.sig()))
+        if self.summary_mode or not self.emit:
+            # only the modifications matter here (a dry run over a loop body, or the summary of the caller)
+            out = set()
+            if obj is not None:
+                out |= self.V(obj, ctx)
+            for a in args:
+                out |= self.V(a, ctx)
+            tt = this_text if this_text is not None else \
+                (self.R(obj) if obj is not None else (self.F().this_text if self.stack else "this"))
+            amap = {}
+            for p_, a in zip(d.params, args):
+                if p_.get("name") and self.peel(a).get("kind") != "CXXDefaultArgExpr":
+                    amap[p_["name"]] = self.R(a)
+            for t in self.summary(d):
+                t = t.replace("⟨this⟩", tt)
+                t = re.sub(r"⟨p:(\w+)⟩", lambda m: amap.get(m.group(1), "?" + m.group(1)), t)
+                out.add(t)
+            return out
+        self.reached.add(id(d))
         if self.on_stack(d):
             # a call that closes a cycle: safe only if it cannot be reached (its guards contradict each other)
             if (caller, d.sig()) not in self.recursive:
@@ -1723,6 +1786,7 @@ def translate():
         w.entry = d.qname.split("::")[-1] + ("(" + ",".join(frags) + ")" if frags else "")
         w.stack = [Frame(1, d, "this", {})]
         w.nframes = 1
+        w.reached.add(id(d))
         ctx = ()
         for ini in d.inits:
             for c in kids(ini):
@@ -1732,6 +1796,8 @@ def translate():
     # every function on its own as well, for the calls that close a cycle only (functions no entry reaches)
     w.only_never = True
     for d in defs:
+        if id(d) in w.reached:
+            continue
         w.entry = "(standalone) " + d.qname.split("::")[-1]
         w.stack = [Frame(1, d, "this", {})]
         w.nframes = 1
